@@ -573,6 +573,63 @@ func c01Cross(chk *fw.Check) int {
 				})
 			}
 		}
+		// (9) a location changes whose list it publishes: the CA was replaced by one with another name, the same file / URL
+		// now carries the new CA's list (both CA certificates are configured as trusted signers). After the refresh took
+		// it in, a certificate of the new CA which it names is rejected
+		for _, mode := range []string{"verify", "verify_log", "none"} {
+			for _, source := range []string{"cdp", "crl_urls", "crl_files"} {
+				mode, source := mode, source
+				seqWorld(func() {
+					net := world.NewNet()
+					dir, files := FreshDir("c01w"), FreshDir("c01wf")
+					defer os.RemoveAll(dir)
+					defer os.RemoveAll(files)
+					g1 := world.SimpleCRL(p.CA, 1, 640).DER()
+					g2 := world.SimpleCRL(p.OtherCA, 2, 641).DER()
+					file := filepath.Join(files, "current.crl")
+					net.Serve(c01CRLURL, "g1", g1)
+					os.WriteFile(file, g1, 0644)
+					storage := "memory"
+					if disk {
+						storage = "disk"
+					}
+					cfg := &config.CRLConfig{WorkDir: dir, StorageType: storage, UpdateInterval: "10m", SignatureValidationMode: mode,
+						TrustedSignatureCertsFiles: []string{WritePEM(files, "ca.pem", p.CA.Cert), WritePEM(files, "newca.pem", p.OtherCA.Cert)}}
+					var cdp []string
+					switch source {
+					case "cdp":
+						cdp = []string{c01CRLURL}
+					case "crl_urls":
+						cfg.CRLUrls = []string{c01CRLURL}
+					case "crl_files":
+						cfg.CRLFiles = []string{file}
+					}
+					w := NewTW(TWOpt{Mode: "crl_only", Net: net, CRL: cfg})
+					if err := w.Provision(); err != nil {
+						chk.Violation("C01|premise|provision-failed", "location-changes-issuer case: "+err.Error(), nil)
+						return
+					}
+					vsched.Drain()
+					old := world.Issue(p.CA, world.CertOpt{CN: "c01 w old", Serial: big.NewInt(640), KeyKind: "ec", KeyIdx: 5, CDP: cdp})
+					if v := w.Handshake(world.Chain(old, p.CA, p.Root)); !v.Rejected() {
+						chk.Violation("C01|premise|first-load", "listed certificate of the first CA accepted right after the first load: "+v.String(), nil)
+						return
+					}
+					vsched.Drain()
+					net.Serve(c01CRLURL, "g2", g2)
+					os.WriteFile(file, g2, 0644)
+					vsched.Advance(11 * time.Minute)
+					vsched.Drain()
+					nl := world.Issue(p.OtherCA, world.CertOpt{CN: "c01 w new", Serial: big.NewInt(641), KeyKind: "ec", KeyIdx: 5, CDP: cdp})
+					if v := w.Handshake(world.Chain(nl, p.OtherCA)); !v.Rejected() {
+						chk.Violation("C01|listed-accepted|history=location-now-publishes-the-list-of-a-CA-with-another-name|source="+source+"|"+be(disk),
+							fmt.Sprintf("signature_validation_mode %s: the %s location published the list of one CA, then the list of its successor (another name); after the refresh a certificate of the successor which that list names is accepted: %s", mode, source, v), nil)
+					}
+					n++
+					w.Cleanup()
+				})
+			}
+		}
 	}
 	return n
 }
